@@ -262,12 +262,24 @@ func (l *lexer) consume(end int) (b6.Expression, string) {
 
 func (l *lexer) lexStringLiteral(yylval *yySymType) int {
 	i := l.Index + 1
+	escaped := false
 	for i < len(l.Expression) {
 		r, w := utf8.DecodeRuneInString(l.Expression[i:])
 		i += w
-		if r == '"' {
+		if escaped {
+			escaped = false
+		} else if r == '\\' {
+			escaped = true
+		} else if r == '"' {
 			e, token := l.consume(i)
-			e.AnyExpression = b6.NewStringExpression(token[1 : len(token)-1]).AnyExpression
+			// Strings are unparsed with %q, so follow go's escaping,
+			// falling back to the literal characters if they're not
+			// valid go.
+			value, err := strconv.Unquote(token)
+			if err != nil {
+				value = token[1 : len(token)-1]
+			}
+			e.AnyExpression = b6.NewStringExpression(value).AnyExpression
 			yylval.e = e
 			return STRING
 		}
